@@ -393,6 +393,21 @@ func (ev *Evaluator) call(env map[ssa.Value]Value, ins *ssa.Call) error {
 	if fn == nil {
 		return &ErrUndecided{"dynamic call"}
 	}
+	// cmp.Compare on order-type representatives
+	if o := fn.Origin(); o != nil && o.Pkg != nil && o.Pkg.Pkg.Path() == "cmp" && o.Name() == "Compare" && len(args) == 2 {
+		a, ok1 := args[0].(num)
+		b, ok2 := args[1].(num)
+		if ok1 && ok2 {
+			r := int64(0)
+			if a.v < b.v {
+				r = -1
+			} else if a.v > b.v {
+				r = 1
+			}
+			env[ins] = num{v: uint64(r)}
+			return nil
+		}
+	}
 	// math/big model
 	if fn.Pkg == nil || fn.Pkg.Pkg.Path() == "math/big" || (fn.Object() != nil && fn.Object().Pkg() != nil && fn.Object().Pkg().Path() == "math/big") {
 		name := fn.Name()
